@@ -572,6 +572,35 @@ func (s *Sim) Do(name string, fn func()) bool {
 	return t.Done()
 }
 
+// DoSelf is Do with a preference: while fn's own task can proceed only it is released, other parked
+// goroutines stay where they are (so that windows opened by them stay open); they are released
+// first-come-first-served only when fn's task is blocked behind one of them.
+func (s *Sim) DoSelf(name string, fn func()) bool {
+	t := s.Go(name, fn)
+	for i := 0; i < 5000 && !t.Done(); i++ {
+		ps := s.Settle()
+		var pick *Parked
+		for j := range ps {
+			if ps[j].Enabled && ps[j].w.task == t {
+				pick = &ps[j]
+				break
+			}
+		}
+		if pick == nil {
+			for j := range ps {
+				if ps[j].Enabled && (pick == nil || ps[j].w.seq < pick.w.seq) {
+					pick = &ps[j]
+				}
+			}
+		}
+		if pick == nil {
+			break
+		}
+		s.Release(*pick)
+	}
+	return t.Done()
+}
+
 // ViolateP records a violation of property prop; when the check runs for
 // another property the observation is logged as a note instead (a check
 // prints only violations of its own property).
